@@ -1,11 +1,13 @@
 //go:build verif
 
-package goldilocks
+package goldilocks_test
 
-// C13 / Goldilocks (edwards448): Curve.Add/Double/ScalarMult/ScalarBaseMult/
-// CombinedMult, Point.Neg, the internal twist curve (ScalarMult, ScalarBaseMult,
-// CombinedMult, Double, mixAdd) and the 4-isogenies push/pull, against the
-// affine big.Int model ref/ecurve. In-package because the twist is unexported.
+// C13 / Goldilocks (edwards448), exported API only: Curve.Add/Double/ScalarMult/
+// ScalarBaseMult/CombinedMult, Point.Neg/IsIdentity/IsEqual, Curve.IsOnCurve,
+// FromAffine/FromBytes/MarshalBinary against the affine big.Int model
+// ref/ecurve. External test package: it cannot name anything unexported.
+// (The internal twist curve and the isogenies are exercised by the in-package
+// files zz_verif_c13_goldilocks_twist*_test.go.)
 
 import (
 	"bytes"
@@ -13,6 +15,7 @@ import (
 	"math/big"
 	"testing"
 
+	"github.com/cloudflare/circl/ecc/goldilocks"
 	"github.com/cloudflare/circl/internal/verifmc"
 	"github.com/cloudflare/circl/internal/verifref/curvealpha"
 	"github.com/cloudflare/circl/internal/verifref/ecurve"
@@ -28,27 +31,10 @@ func c13Int(e *fp.Elt) *big.Int {
 	return fpx.FromLE(t[:])
 }
 
-func c13Scalar(v *big.Int) *Scalar {
-	s := &Scalar{}
-	copy(s[:], fpx.ToLE(v, ScalarSize))
+func c13Scalar(v *big.Int) *goldilocks.Scalar {
+	s := &goldilocks.Scalar{}
+	copy(s[:], fpx.ToLE(v, goldilocks.ScalarSize))
 	return s
-}
-
-// c13Affine reads a projective (x, y, z) triple as affine big.Int coordinates.
-func c13Affine(x, y, z *fp.Elt) (ax, ay *big.Int, ok bool) {
-	zz := *z
-	if fp.IsZero(&zz) {
-		return nil, nil, false
-	}
-	var zi, xx, yy fp.Elt
-	fp.Inv(&zi, z)
-	fp.Mul(&xx, x, &zi)
-	fp.Mul(&yy, y, &zi)
-	return c13Int(&xx), c13Int(&yy), true
-}
-
-func c13Same(c *ecurve.Curve, want ecurve.Point, x, y *big.Int, ok bool) bool {
-	return ok && want.X.A.Cmp(x) == 0 && want.Y.A.Cmp(y) == 0
 }
 
 func c13Rel(m, n, N *big.Int) string {
@@ -68,7 +54,7 @@ func TestVerifC13_goldilocks(t *testing.T) {
 	r.Rule("edwards448 public API: points PT = {O, +-kG, [(n+-1)/2]G, +-[s]G} built with FromAffine from the reference's coordinates (and decoded from its RFC 8032 encoding), " +
 		"scalars SC = curvealpha.Scalars(n, 448) as 56-byte little-endian; Add on PT x PT, Double/Neg on PT, ScalarMult on SC x PT, ScalarBaseMult on SC, " +
 		"CombinedMult on SCc x SCc x PTc (thorough: SC x SC x PT); results compared as affine coordinates and as RFC 8032 encodings; before that, the predicates (Point.IsIdentity, Curve.IsOnCurve, Point.IsEqual against the expected point, Identity(), a computed identity T+(-T), the same point by another route, a different point) are queried directly on byte-identical copies of each freshly computed result, including the chain ((P+Q)-Q)-P; distinct = distinct (operation, operand names)")
-	var e Curve
+	var e goldilocks.Curve
 	ref := ecurve.Edwards448()
 	N := ref.N
 	sc := curvealpha.Scalars(N, 448, r.Seed())
@@ -80,9 +66,9 @@ func TestVerifC13_goldilocks(t *testing.T) {
 	for i, a := range logs {
 		refPts[i] = ref.BaseMult(a.V)
 	}
-	mk := func(i int) *Point {
+	mk := func(i int) *goldilocks.Point {
 		x, y := c13Elt(refPts[i].X.A), c13Elt(refPts[i].Y.A)
-		P, err := FromAffine(&x, &y)
+		P, err := goldilocks.FromAffine(&x, &y)
 		if err != nil {
 			t.Errorf("FromAffine rejects reference point %s", logs[i].Name)
 		}
@@ -91,16 +77,16 @@ func TestVerifC13_goldilocks(t *testing.T) {
 	bad := func(op, class, id, what string, payload interface{}) {
 		r.Violation("C13|goldilocks."+op+"|"+curvealpha.CoarseKey(class), id, what, payload)
 	}
-	mkRef := func(P ecurve.Point) *Point {
+	mkRef := func(P ecurve.Point) *goldilocks.Point {
 		x, y := c13Elt(P.X.A), c13Elt(P.Y.A)
-		Q, _ := FromAffine(&x, &y)
+		Q, _ := goldilocks.FromAffine(&x, &y)
 		return Q
 	}
 	// preds queries the package's predicates DIRECTLY on byte-identical copies of a
 	// freshly computed value (one copy per query), before anything normalises it.
 	Tp := ref.BaseMult(big.NewInt(0x51ed27))
-	preds := func(op, class, id string, got *Point, want ecurve.Point, payload interface{}) {
-		fresh := func() *Point { f := *got; return &f }
+	preds := func(op, class, id string, got *goldilocks.Point, want ecurve.Point, payload interface{}) {
+		fresh := func() *goldilocks.Point { f := *got; return &f }
 		isID := ref.IsIdentity(want)
 		kind := "non-identity"
 		if isID {
@@ -132,26 +118,20 @@ func TestVerifC13_goldilocks(t *testing.T) {
 		fail("IsEqual(different-point)", fresh().IsEqual(mkRef(ref.Add(want, ref.G))), false)
 		fail("IsEqual(-expected)", fresh().IsEqual(mkRef(ref.Neg(want))), isID)
 	}
-	check := func(op, class, id string, got *Point, want ecurve.Point, payload interface{}) {
+	check := func(op, class, id string, got *goldilocks.Point, want ecurve.Point, payload interface{}) {
 		if got == nil {
 			bad(op, "nil-result|"+class, id, id+": nil result", payload)
 			return
 		}
 		preds(op, class, id, got, want, payload)
 		g := *got
-		x, y, ok := c13Affine(&g.x, &g.y, &g.z)
-		if !c13Same(ref, want, x, y, ok) {
-			bad(op, "wrong-result|"+class, id, fmt.Sprintf("%s: got (%x,%x) z!=0:%v want %v", id, x, y, ok, want), payload)
-			return
+		if !e.IsOnCurve(&g) { // includes the consistency of the extended coordinate: x*y = t*z
+			bad(op, "inconsistent-T|"+class, id, id+": IsOnCurve is false on the fresh result (curve equation or x*y = ta*tb*z)", payload)
 		}
-		// the extended coordinate must be consistent: ta*tb*z = x*y
-		var l, rr fp.Elt
-		fp.Mul(&l, &g.ta, &g.tb)
-		fp.Mul(&l, &l, &g.z)
-		fp.Mul(&rr, &g.x, &g.y)
-		fp.Sub(&l, &l, &rr)
-		if !fp.IsZero(&l) || !e.IsOnCurve(&g) {
-			bad(op, "inconsistent-T|"+class, id, id+": extended coordinate inconsistent (ta*tb*z != x*y) or IsOnCurve false", payload)
+		ax, ay := g.ToAffine() // normalises the copy
+		if x, y := c13Int(&ax), c13Int(&ay); want.X.A.Cmp(x) != 0 || want.Y.A.Cmp(y) != 0 {
+			bad(op, "wrong-result|"+class, id, fmt.Sprintf("%s: got (%x,%x) want %v", id, x, y, want), payload)
+			return
 		}
 		g2 := *got
 		enc, err := g2.MarshalBinary()
@@ -175,7 +155,7 @@ func TestVerifC13_goldilocks(t *testing.T) {
 	check("Generator", "G", "gen", e.Generator(), ref.G, nil)
 	check("Identity", "O", "id", e.Identity(), ref.Identity(), nil)
 	for i, a := range logs {
-		P, err := FromBytes(ref.MarshalRFC8032(refPts[i]))
+		P, err := goldilocks.FromBytes(ref.MarshalRFC8032(refPts[i]))
 		if err != nil {
 			bad("FromBytes", "rejects-valid|P="+a.Name, "dec/"+a.Name, "reference encoding rejected: "+err.Error(), nil)
 			continue
@@ -195,7 +175,7 @@ func TestVerifC13_goldilocks(t *testing.T) {
 		if r.Want(id) {
 			P, Q := mk(i), mk(j)
 			sum := new(big.Int).Add(a.V, b.V)
-			var out *Point
+			var out *goldilocks.Point
 			if try("Add", id, func() { out = e.Add(P, Q) }) {
 				check("Add", "P="+a.Name+"|Q="+b.Name, id, out, ref.BaseMult(sum), nil)
 			}
@@ -214,13 +194,13 @@ func TestVerifC13_goldilocks(t *testing.T) {
 			if out != nil {
 				nq := mk(j)
 				nq.Neg()
-				var back *Point
+				var back *goldilocks.Point
 				if try("Add", id+"/back", func() { back = e.Add(out, nq) }) {
 					check("Add", "projective-operand|P="+a.Name+"|Q="+b.Name, id+"/back", back, refPts[i], nil)
 					// chain to the identity through non-normalised operands: ((P+Q)-Q)-P
 					np := mk(i)
 					np.Neg()
-					var zero *Point
+					var zero *goldilocks.Point
 					if try("Add", id+"/chain", func() { zero = e.Add(back, np) }) {
 						check("Add", "chain-to-identity|P="+a.Name+"|Q="+b.Name, id+"/chain", zero, ref.Identity(), nil)
 					}
@@ -231,7 +211,7 @@ func TestVerifC13_goldilocks(t *testing.T) {
 		if j == 0 {
 			id := "dbl/" + a.Name
 			if r.Want(id) {
-				var out *Point
+				var out *goldilocks.Point
 				P := mk(i)
 				if try("Double", id, func() { out = e.Double(P) }) {
 					check("Double", "P="+a.Name, id, out, ref.BaseMult(new(big.Int).Lsh(a.V, 1)), nil)
@@ -257,10 +237,10 @@ func TestVerifC13_goldilocks(t *testing.T) {
 		if !r.Want(id) {
 			return
 		}
-		payload := map[string]string{"k_le": verifmc.FullHex(fpx.ToLE(s.V, ScalarSize)), "P": verifmc.FullHex(ref.MarshalRFC8032(refPts[i]))}
+		payload := map[string]string{"k_le": verifmc.FullHex(fpx.ToLE(s.V, goldilocks.ScalarSize)), "P": verifmc.FullHex(ref.MarshalRFC8032(refPts[i]))}
 		k := c13Scalar(s.V)
 		P := mk(i)
-		var out *Point
+		var out *goldilocks.Point
 		if try("ScalarMult", id, func() { out = e.ScalarMult(k, P) }) {
 			check("ScalarMult", "k="+s.Name+"|P="+a.Name, id, out, ref.BaseMult(new(big.Int).Mul(s.V, a.V)), payload)
 		}
@@ -279,7 +259,7 @@ func TestVerifC13_goldilocks(t *testing.T) {
 		if i == 0 {
 			id := "base/" + s.Name
 			k := c13Scalar(s.V)
-			var out *Point
+			var out *goldilocks.Point
 			if try("ScalarBaseMult", id, func() { out = e.ScalarBaseMult(k) }) {
 				check("ScalarBaseMult", "k="+s.Name, id, out, ref.BaseMult(s.V), payload)
 			}
@@ -288,7 +268,7 @@ func TestVerifC13_goldilocks(t *testing.T) {
 			r.Distinct("base", s.Name)
 		}
 	})
-	r.Sample(map[string]string{"op": "ScalarMult", "k": "n-1", "k_le": verifmc.FullHex(fpx.ToLE(new(big.Int).Sub(N, big.NewInt(1)), ScalarSize)), "P": logs[len(logs)-1].Name, "P_rfc8032": verifmc.FullHex(ref.MarshalRFC8032(refPts[len(logs)-1]))})
+	r.Sample(map[string]string{"op": "ScalarMult", "k": "n-1", "k_le": verifmc.FullHex(fpx.ToLE(new(big.Int).Sub(N, big.NewInt(1)), goldilocks.ScalarSize)), "P": logs[len(logs)-1].Name, "P_rfc8032": verifmc.FullHex(ref.MarshalRFC8032(refPts[len(logs)-1]))})
 
 	// ---- CombinedMult(m, n, Q) = mG + nQ
 	ms := curvealpha.Core(sc)
@@ -314,11 +294,11 @@ func TestVerifC13_goldilocks(t *testing.T) {
 		ex := new(big.Int).Mul(n.V, a.V)
 		ex.Add(ex, m.V)
 		rel := c13Rel(m.V, n.V, N)
-		var out *Point
+		var out *goldilocks.Point
 		Q := mk(qi)
 		if try("CombinedMult", id, func() { out = e.CombinedMult(c13Scalar(m.V), c13Scalar(n.V), Q) }) {
 			check("CombinedMult", "Q="+a.Name+"|"+rel, id, out, ref.BaseMult(ex),
-				map[string]string{"m_le": verifmc.FullHex(fpx.ToLE(m.V, ScalarSize)), "n_le": verifmc.FullHex(fpx.ToLE(n.V, ScalarSize)), "Q": verifmc.FullHex(ref.MarshalRFC8032(refPts[qi]))})
+				map[string]string{"m_le": verifmc.FullHex(fpx.ToLE(m.V, goldilocks.ScalarSize)), "n_le": verifmc.FullHex(fpx.ToLE(n.V, goldilocks.ScalarSize)), "Q": verifmc.FullHex(ref.MarshalRFC8032(refPts[qi]))})
 		}
 		r.Eval(1)
 		r.Transition(1)
@@ -346,233 +326,4 @@ func TestVerifC13_goldilocks(t *testing.T) {
 	r.RequireCounter("comb_Q_identity", 10)
 	r.RequireCounter("identity_results_queried", 300)
 	r.RequireCounter("non_identity_results_queried", 1000)
-}
-
-// ------------------------------------------------------------------ twist
-
-func TestVerifC13_goldilocks_twist(t *testing.T) {
-	r := verifmc.Start(t, "C13", "goldilocks_twist")
-	defer r.Finish()
-	r.Rule("internal twist curve -x^2+y^2 = 1-39082x^2y^2 and the 4-isogenies: push(P) = Iso448(P) and pull(push(P)) = [4]P on PT; " +
-		"twistCurve.ScalarMult on SC x Iso448(PT), twistCurve.ScalarBaseMult on SC (base = Iso448(G)), twistCurve.CombinedMult on SCc x SCc x Iso448(PTc), " +
-		"twistPoint.Double and mixAdd on PT / PT x PT; the Point predicates (IsIdentity, IsOnCurve, IsEqual) are asked about the dual-isogeny image of every freshly computed twist point; distinct = distinct (operation, operand names)")
-	var e Curve
-	var tc twistCurve
-	ref, tw := ecurve.Edwards448(), ecurve.Twist448()
-	N := ref.N
-	sc := curvealpha.Scalars(N, 448, r.Seed())
-	logs := curvealpha.PointLogs(N)
-	r.Set("scalars", len(sc))
-	r.Set("points", len(logs))
-	r.State(len(logs))
-	bad := func(op, class, id, what string, payload interface{}) {
-		r.Violation("C13|goldilocks.twist."+op+"|"+curvealpha.CoarseKey(class), id, what, payload)
-	}
-	mkTw := func(P ecurve.Point) *twistPoint {
-		x, y := c13Elt(P.X.A), c13Elt(P.Y.A)
-		return &twistPoint{x: x, y: y, z: fp.One(), ta: x, tb: y}
-	}
-	mkEd := func(P ecurve.Point) *Point {
-		x, y := c13Elt(P.X.A), c13Elt(P.Y.A)
-		Q, _ := FromAffine(&x, &y)
-		return Q
-	}
-	checkTw := func(op, class, id string, got *twistPoint, want ecurve.Point, payload interface{}) {
-		{
-			// twistPoint has no predicates of its own: they are asked about the image of the fresh
-			// (non-normalised) result under the dual isogeny, which is the identity exactly when the
-			// result is (odd-order points) and must equal Iso448Dual(want).
-			isID := tw.IsIdentity(want)
-			kind := "non-identity"
-			if isID {
-				kind = "identity"
-				r.Count("identity_results_queried", 1)
-			} else {
-				r.Count("non_identity_results_queried", 1)
-			}
-			down := func() *Point { f := *got; return tc.push(&f) }
-			fail := func(pred string, v, exp bool) {
-				if v != exp {
-					bad(op, "predicate:"+pred+"|fresh-result|"+kind+"|"+class, id,
-						fmt.Sprintf("%s: %s = %v on the dual-isogeny image of the freshly computed twist point %v, expected %v", id, pred, v, *got, exp), payload)
-				}
-			}
-			wantDown, okd := ecurve.Iso448Dual(want)
-			if p, what := verifmc.Try(func() {
-				fail("push.IsIdentity", down().IsIdentity(), isID)
-				fail("push.IsOnCurve", e.IsOnCurve(down()), true)
-				fail("push.IsEqual(Identity())", down().IsEqual(e.Identity()), isID)
-				if okd {
-					fail("push.IsEqual(expected)", down().IsEqual(mkEd(wantDown)), true)
-					fail("expected.IsEqual(push)", mkEd(wantDown).IsEqual(down()), true)
-				}
-			}); p {
-				bad(op, "panic:"+verifmc.PanicClass(what)+"|predicates|"+class, id, what, payload)
-			}
-		}
-		g := *got
-		x, y, ok := c13Affine(&g.x, &g.y, &g.z)
-		if !c13Same(tw, want, x, y, ok) {
-			bad(op, "wrong-result|"+class, id, fmt.Sprintf("%s: got (%x,%x) z!=0:%v want %v", id, x, y, ok, want), payload)
-			return
-		}
-		var l, rr fp.Elt
-		fp.Mul(&l, &g.ta, &g.tb)
-		fp.Mul(&l, &l, &g.z)
-		fp.Mul(&rr, &g.x, &g.y)
-		fp.Sub(&l, &l, &rr)
-		if !fp.IsZero(&l) {
-			bad(op, "inconsistent-T|"+class, id, id+": ta*tb*z != x*y", payload)
-		}
-	}
-	try := func(op, id string, f func()) bool {
-		if p, what := verifmc.Try(f); p {
-			bad(op, "panic:"+verifmc.PanicClass(what), id, what, nil)
-			return false
-		}
-		return true
-	}
-	twPts := make([]ecurve.Point, len(logs)) // Iso448([a]G) = [a]Iso448(G)
-	for i, a := range logs {
-		twPts[i] = tw.BaseMult(a.V)
-	}
-
-	// ---- isogenies
-	for i, a := range logs {
-		id := "iso/" + a.Name
-		if !r.Want(id) {
-			continue
-		}
-		P := ref.BaseMult(a.V)
-		var up *twistPoint
-		if !try("push", id, func() { up = e.push(mkEd(P)) }) {
-			continue
-		}
-		checkTw("push", "P="+a.Name, id, up, twPts[i], nil)
-		var down *Point
-		if try("pull", id, func() { down = e.pull(up) }) {
-			want := ref.BaseMult(new(big.Int).Lsh(a.V, 2))
-			g := *down
-			x, y, ok := c13Affine(&g.x, &g.y, &g.z)
-			if !c13Same(ref, want, x, y, ok) {
-				bad("pull", "wrong-result|P="+a.Name, id, fmt.Sprintf("pull(push(%s)) != [4]P: got (%x,%x)", a.Name, x, y), nil)
-			}
-		}
-		// dual applied to an affine twist point
-		var d2 *Point
-		if try("pull", id+"/affine", func() { d2 = e.pull(mkTw(twPts[i])) }) {
-			want, _ := ecurve.Iso448Dual(twPts[i])
-			g := *d2
-			x, y, ok := c13Affine(&g.x, &g.y, &g.z)
-			if !c13Same(ref, want, x, y, ok) {
-				bad("pull", "wrong-result|affine|P="+a.Name, id+"/affine", "dual isogeny of an affine twist point is wrong", nil)
-			}
-		}
-		r.Eval(3)
-		r.Transition(3)
-		r.Distinct("iso", a.Name)
-	}
-
-	// ---- twist Double and mixAdd
-	verifmc.ParallelFor(len(logs)*len(logs), func(idx int) {
-		i, j := idx/len(logs), idx%len(logs)
-		a, b := logs[i], logs[j]
-		id := "twadd/" + a.Name + "/" + b.Name
-		if !r.Want(id) {
-			return
-		}
-		P := mkTw(twPts[i])
-		var pre preTwistPointProy
-		pre.FromTwistPoint(mkTw(twPts[j]))
-		if try("mixAdd", id, func() { P.mixAdd(&pre) }) {
-			checkTw("mixAdd", "P="+a.Name+"|Q="+b.Name, id, P, tw.BaseMult(new(big.Int).Add(a.V, b.V)), nil)
-		}
-		r.Eval(1)
-		r.Transition(1)
-		r.Distinct("twadd", a.Name, b.Name)
-		if j == 0 {
-			D := mkTw(twPts[i])
-			if try("Double", "twdbl/"+a.Name, func() { D.Double() }) {
-				checkTw("Double", "P="+a.Name, "twdbl/"+a.Name, D, tw.BaseMult(new(big.Int).Lsh(a.V, 1)), nil)
-			}
-			r.Eval(1)
-			r.Transition(1)
-			r.Distinct("twdbl", a.Name)
-		}
-	})
-
-	// ---- twist ScalarMult / ScalarBaseMult
-	verifmc.ParallelFor(len(sc)*len(logs), func(idx int) {
-		s, i := sc[idx/len(logs)], idx%len(logs)
-		a := logs[i]
-		id := "twmult/" + s.Name + "/" + a.Name
-		if !r.Want(id) {
-			return
-		}
-		payload := map[string]string{"k_le": verifmc.FullHex(fpx.ToLE(s.V, ScalarSize)), "log": a.V.Text(16)}
-		var out *twistPoint
-		if try("ScalarMult", id, func() { out = tc.ScalarMult(c13Scalar(s.V), mkTw(twPts[i])) }) {
-			checkTw("ScalarMult", "k="+s.Name+"|P="+a.Name, id, out, tw.BaseMult(new(big.Int).Mul(s.V, a.V)), payload)
-		}
-		r.Eval(1)
-		r.Transition(1)
-		r.Distinct("twmult", s.Name, a.Name)
-		if s.V.Bit(0) == 0 {
-			r.Count("even_scalar", 1)
-		}
-		if new(big.Int).Mod(s.V, N).Sign() == 0 {
-			r.Count("scalar_multiple_of_order", 1)
-		}
-		if i == 0 {
-			id := "twbase/" + s.Name
-			var out *twistPoint
-			if try("ScalarBaseMult", id, func() { out = tc.ScalarBaseMult(c13Scalar(s.V)) }) {
-				checkTw("ScalarBaseMult", "k="+s.Name, id, out, tw.BaseMult(s.V), payload)
-			}
-			r.Eval(1)
-			r.Transition(1)
-			r.Distinct("twbase", s.Name)
-		}
-	})
-	r.Sample(map[string]string{"op": "twist.ScalarMult", "k": "n-1", "P": "Iso448(" + logs[1].Name + ")"})
-
-	// ---- twist CombinedMult
-	ms := curvealpha.Core(sc)
-	var qs []int
-	for i, a := range logs {
-		if a.Core || r.Thorough() {
-			qs = append(qs, i)
-		}
-	}
-	if r.Thorough() {
-		ms = sc
-	}
-	verifmc.ParallelFor(len(ms)*len(ms)*len(qs), func(idx int) {
-		qi := qs[idx%len(qs)]
-		m, n := ms[idx/len(qs)/len(ms)], ms[idx/len(qs)%len(ms)]
-		a := logs[qi]
-		id := "twcomb/" + m.Name + "/" + n.Name + "/" + a.Name
-		if !r.Want(id) || r.Expired() {
-			return
-		}
-		ex := new(big.Int).Mul(n.V, a.V)
-		ex.Add(ex, m.V)
-		rel := c13Rel(m.V, n.V, N)
-		var out *twistPoint
-		if try("CombinedMult", id, func() { out = tc.CombinedMult(c13Scalar(m.V), c13Scalar(n.V), mkTw(twPts[qi])) }) {
-			checkTw("CombinedMult", "Q="+a.Name+"|"+rel, id, out, tw.BaseMult(ex),
-				map[string]string{"m_le": verifmc.FullHex(fpx.ToLE(m.V, ScalarSize)), "n_le": verifmc.FullHex(fpx.ToLE(n.V, ScalarSize)), "log": a.V.Text(16)})
-		}
-		r.Eval(1)
-		r.Transition(1)
-		r.Distinct("twcomb", m.Name, n.Name, a.Name)
-		if a.Name == "1G" && rel == "m=n" {
-			r.Count("comb_Q_eq_G_and_m_eq_n", 1)
-		}
-	})
-	r.RequireCounter("even_scalar", 50)
-	r.RequireCounter("scalar_multiple_of_order", 10)
-	r.RequireCounter("identity_results_queried", 100)
-	r.RequireCounter("non_identity_results_queried", 1000)
-	r.RequireCounter("comb_Q_eq_G_and_m_eq_n", 5)
 }
